@@ -136,7 +136,7 @@ def e5_totality(ctx, inst):
         ctx.inconclusive("E5", "graphtage/formatter.py", "_get_formatter", None, "conformance", "_get_formatter not found")
     else:
         src = ast.unparse(gf.node)
-        need = ["node_type.mro()", "print_{c.__name__}", "sub_formatters", "grandchildren", ".parent", "tested"]
+        need = [".mro()", ".__name__}", "print_{", "sub_formatters", ".parent"]
         missing = [x for x in need if x not in src]
         if missing:
             ctx.inconclusive("E5", gf.file, "_get_formatter", gf.node, "conformance",
